@@ -4,7 +4,7 @@
    pipeline, order across batches, watermarks accepted by a Temporal receiver) are an executable monitor
    applied to every implementation trace and tied to the model by the correspondence. *)
 From Coq Require Import List ZArith Bool.
-From S2S Require Import Routing.Model Routing.Basic Routing.Delivery Routing.Inv Routing.Place Routing.Wire.
+From S2S Require Import Routing.Model Routing.Basic Routing.Delivery Routing.Inv Routing.Place Routing.Wire Routing.Watermark.
 Import ListNotations.
 Open Scope Z_scope.
 
@@ -87,3 +87,16 @@ Theorem C02_wire_ids : forall ns nt l,
     map w_pid (wire T outs ++ inflight_ws s) = tpids 1 (s_hist s) /\ increasing (map w_pid (wire T outs)).
 Proof. exact wire_ids. Qed.
 Print Assumptions C02_wire_ids.
+
+(* The watermarks on the wire: for every number of sources and targets and every fault-free sequence of actions, on every
+   target's stream each task-bearing message carries an exclusive high watermark greater than each of its task ids and than
+   the watermark of EVERY earlier message on that stream (task-bearing, watermark-only or keep-alive) - what a Temporal
+   receiver needs in order to accept every task. *)
+Theorem C02_wire_watermarks : forall ns nt l,
+  wf_run (init ns nt) l ->
+  let '(x, outs) := run_acts true (init ns nt) l in
+  forall T s, send_at x T s ->
+    forall l1 ws h l2, msgs T outs = l1 ++ (ws, h) :: l2 -> ws <> [] ->
+      (forall w, In w ws -> w_pid w < h) /\ (forall ws' h', In (ws', h') l1 -> h' < h).
+Proof. exact wire_watermarks. Qed.
+Print Assumptions C02_wire_watermarks.
